@@ -2,7 +2,8 @@ import NfpmModel.Pax
 /-
   The control segment of an apk as apk.createBuilderControl assembles it:
 
-    .PKGINFO             USTAR header, mode 0600, no time (writeFile), the rendered key = value text
+    .PKGINFO             USTAR header, mode 0600, the package mtime (0 when none is configured; since fix 5a5090a in /repo –
+                         before it no time at all), the rendered key = value text
     the configured scripts in the order of their member names
       .post-deinstall .post-install .post-upgrade .pre-deinstall .pre-install .pre-upgrade
                          mode 0755, the on-disk mtime of the script file, PAX format with the record
@@ -13,8 +14,8 @@ import NfpmModel.Pax
 namespace Nfpm.ApkCtl
 open Nfpm B
 
-def pkginfoMember (pkginfo : Bytes) : Tar.PMember :=
-  { hdr := { flavor := .ustar, name := b!".PKGINFO", mode := 0o600, size := pkginfo.length }, body := pkginfo }
+def pkginfoMember (pkginfo : Bytes) (mtime : Nat := 0) : Tar.PMember :=
+  { hdr := { flavor := .ustar, name := b!".PKGINFO", mode := 0o600, size := pkginfo.length, mtime := mtime }, body := pkginfo }
 
 def scriptMember (sha1hex : Bytes → Bytes) (name : Bytes) (body : Bytes) (mtime : Nat) : Tar.PMember :=
   { hdr := { flavor := .ustar, name := name, mode := 0o755, size := body.length, mtime := mtime },
@@ -24,8 +25,8 @@ def scriptMember (sha1hex : Bytes → Bytes) (name : Bytes) (body : Bytes) (mtim
 def slots : List Bytes :=
   [ b!".post-deinstall", b!".post-install", b!".post-upgrade", b!".pre-deinstall", b!".pre-install", b!".pre-upgrade" ]
 
-def members (sha1hex : Bytes → Bytes) (pkginfo : Bytes) (scripts : Bytes → Option (Bytes × Nat)) : List Tar.PMember :=
-  pkginfoMember pkginfo :: slots.filterMap (fun n => (scripts n).map (fun p => scriptMember sha1hex n p.1 p.2))
+def members (sha1hex : Bytes → Bytes) (pkginfo : Bytes) (scripts : Bytes → Option (Bytes × Nat)) (mtime : Nat := 0) : List Tar.PMember :=
+  pkginfoMember pkginfo mtime :: slots.filterMap (fun n => (scripts n).map (fun p => scriptMember sha1hex n p.1 p.2))
 
 def lookup (name : Bytes) (ms : List Tar.PMember) : Option Tar.PMember := ms.find? (fun m => m.hdr.name = name)
 
